@@ -520,7 +520,7 @@ class DeepDiff(ResultDict, SerializationMixin, DistanceMixin, DeepDiffProtocol, 
                     if prefix in level_path or level_path in prefix:
                         skip = False
                         break
-        elif self.exclude_regex_paths and any(
+        elif self.exclude_regex_paths and level_path is not None and any(
                 [exclude_regex_path.search(level_path) for exclude_regex_path in self.exclude_regex_paths]):
             skip = True
         elif self.exclude_types_tuple and \
